@@ -6,7 +6,7 @@ import os
 
 from .pyexpr import TranslationError, find_class, find_func, strip_doc, write_if_changed
 
-REPO = "/repo"
+REPO = os.environ.get("VERIF_REPO", "/repo")
 OUT = os.path.join(os.path.dirname(os.path.dirname(os.path.dirname(os.path.abspath(__file__)))), "coq", "theories", "Gen", "Guards.v")
 
 MODES = {"absolute": 0, "normalized": 1, "symmetric": 2, "norm_compensation": 10, "reconstruction": 11, "coef_extraction": 12,
